@@ -58,12 +58,15 @@ type File struct {
 
 // Tree is one generated project.
 type Tree struct {
-	Index  int     `json:"index"`
-	Kind   string  `json:"kind"` // ok | cycle-self | cycle-2 | cycle-3 | missing | version | flatten-conflict | prefixed-collision
-	Files  []*File `json:"files"`
-	Fault  string  `json:"fault,omitempty"`
-	Hash   string  `json:"hash"`
-	OptSet []string
+	Index int     `json:"index"`
+	Kind  string  `json:"kind"` // ok | cycle-self | cycle-2 | cycle-3 | missing | version | flatten-conflict | prefixed-collision
+	Files []*File `json:"files"`
+	Fault string  `json:"fault,omitempty"`
+	// BelowOpt > 0: the fault sits that many include levels below an include
+	// marked optional whose file exists (it must still be reported)
+	BelowOpt int    `json:"below_optional,omitempty"`
+	Hash     string `json:"hash"`
+	OptSet   []string
 }
 
 // Options of an include entry (the factors of the pairwise array).
@@ -391,7 +394,9 @@ func (g *gen) fill(allAttrs bool) {
 func (t *Tree) Render() {
 	for _, f := range t.Files {
 		var b strings.Builder
-		fmt.Fprintf(&b, "version: '%s'\n", f.Version)
+		if f.Version != "" {
+			fmt.Fprintf(&b, "version: '%s'\n", f.Version)
+		}
 		if len(f.Incs) > 0 {
 			b.WriteString("includes:\n")
 			for _, inc := range f.Incs {
@@ -427,7 +432,7 @@ func (t *Tree) Render() {
 			}
 		}
 		// variable names are unique per file (C09's merge-order question must not leak in here)
-		fmt.Fprintf(&b, "vars:\n  FV_%s: fv-%s\n", f.ID, f.ID)
+		fmt.Fprintf(&b, "vars:\n  FV_%s: fv-%s\n  DV_%s:\n    sh: \"pwd # %s\"\n", f.ID, f.ID, f.ID, f.ID)
 		b.WriteString("tasks:\n")
 		for _, tk := range f.Tasks {
 			fmt.Fprintf(&b, "  %q:\n", tk.Name)
@@ -453,7 +458,7 @@ func (t *Tree) Render() {
 				}
 			}
 			b.WriteString("    cmds:\n")
-			fmt.Fprintf(&b, "      - printf '%%s\\n' \"ORIGIN=%s#%s TASK={{.TASK}} PWD=$(pwd) FV={{.FV_%s}} IV={{.IV_%s}}\"\n", f.ID, tk.Name, f.ID, f.ID)
+			fmt.Fprintf(&b, "      - printf '%%s\\n' \"ORIGIN=%s#%s TASK={{.TASK}} PWD=$(pwd) FV={{.FV_%s}} IV={{.IV_%s}} DV={{.DV_%s}}\"\n", f.ID, tk.Name, f.ID, f.ID, f.ID)
 			for _, c := range tk.Calls {
 				fmt.Fprintf(&b, "      - task: %q\n", c)
 			}
@@ -473,14 +478,40 @@ func GenOK(r *rand.Rand, idx int, next func() []string) *Tree {
 	g := &gen{r: r, t: t, next: next, flats: map[int]bool{}}
 	root := g.newFile(false)
 	var pool []int
+	if idx%6 == 1 {
+		// a diamond: two siblings included in the short form, each including the
+		// same common file in the long form with its own dir and vars
+		g.diamond(root, &pool)
+	}
 	g.grow(root, 1, &pool)
 	g.fill(idx%5 == 0)
 	t.Render()
 	return t
 }
 
+func (g *gen) rootFile() int {
+	i := len(g.t.Files)
+	f := &File{ID: fmt.Sprintf("f%d", i), Version: "3", InRoot: true}
+	f.Path = fmt.Sprintf("Taskfile.%s.yml", f.ID)
+	g.t.Files = append(g.t.Files, f)
+	return i
+}
+
+func (g *gen) diamond(root int, pool *[]int) {
+	a, b, c := g.rootFile(), g.rootFile(), g.rootFile()
+	for _, s := range []int{a, b} {
+		inc := g.addInc(root, s, nil)
+		inc.Mapping = false
+		ci := g.addInc(s, c, []string{"dir", "vars"})
+		if g.r.Intn(2) == 0 {
+			ci.Aliases = []string{"al" + ci.NS}
+		}
+	}
+	*pool = append(*pool, a, b, c)
+}
+
 // Faults injected into an ok tree.
-var Faults = []string{"cycle-self", "cycle-2", "cycle-3", "missing", "missing-deep", "version", "flatten-conflict", "flatten-conflict-siblings", "prefixed-collision"}
+var Faults = []string{"cycle-self", "cycle-2", "cycle-3", "missing", "missing-deep", "version", "no-version", "flatten-conflict", "flatten-conflict-siblings", "prefixed-collision"}
 
 // GenFault generates a tree with one fault that must be reported as an error.
 func GenFault(r *rand.Rand, idx int, fault string, next func() []string) *Tree {
@@ -523,6 +554,8 @@ func GenFault(r *rand.Rand, idx int, fault string, next func() []string) *Tree {
 		g.addInc(pick, -1, []string{"vars"})
 	case "version":
 		t.Files[pick].Version = []string{"3.5.0", "3.17", "2"}[r.Intn(3)]
+	case "no-version":
+		t.Files[pick].Version = ""
 	case "flatten-conflict":
 		// flatten a file whose task names equal the parent's
 		c := g.newFile(false)
@@ -568,4 +601,80 @@ func (g *gen) parentOf(file int) int {
 		}
 	}
 	return 0
+}
+
+// GenFaultBelowOptional generates a tree whose only fault sits depth (1 or 2)
+// include levels below an include marked optional whose file EXISTS. optional
+// only excuses a missing file; everything else must still be reported.
+func GenFaultBelowOptional(r *rand.Rand, idx int, fault string, depth int, next func() []string) *Tree {
+	t := &Tree{Index: idx, Kind: "ok"}
+	g := &gen{r: r, t: t, next: func() []string {
+		for {
+			o := next()
+			if !has(o, "flatten") && !has(o, "optional") {
+				return o
+			}
+		}
+	}, flats: map[int]bool{}}
+	root := g.newFile(false)
+	var pool []int
+	g.grow(root, 1, &pool)
+	// the optional include of an existing file, with one more option now and then
+	opt := []string{"optional"}
+	if x := []string{"", "dir", "vars", "aliases", "internal"}[r.Intn(5)]; x != "" {
+		opt = append(opt, x)
+	}
+	o := g.newFile(false)
+	g.addInc(root, o, opt)
+	site := o // the file that carries the fault in its own includes
+	if depth >= 2 {
+		m := g.newFile(false)
+		g.addInc(o, m, nil)
+		site = m
+	}
+	var collide *Inc
+	switch fault {
+	case "cycle-self":
+		g.addInc(site, site, nil)
+	case "cycle-2":
+		c := g.newFile(false)
+		g.addInc(site, c, nil)
+		g.addInc(c, site, nil)
+	case "cycle-3":
+		b, c := g.newFile(false), g.newFile(false)
+		g.addInc(site, b, nil)
+		g.addInc(b, c, nil)
+		g.addInc(c, site, nil)
+	case "missing":
+		g.addInc(site, -1, nil)
+	case "missing-deep":
+		g.addInc(site, -1, []string{"vars"})
+	case "version", "no-version":
+		c := g.newFile(false)
+		g.addInc(site, c, nil)
+		if fault == "version" {
+			t.Files[c].Version = []string{"3.5.0", "3.17", "2"}[r.Intn(3)]
+		} else {
+			t.Files[c].Version = ""
+		}
+	case "flatten-conflict":
+		c := g.newFile(false)
+		g.addInc(site, c, []string{"flatten"})
+	case "flatten-conflict-siblings":
+		c := g.newFile(true)
+		g.addInc(site, c, []string{"flatten"})
+		g.addInc(site, c, []string{"flatten", "vars"})
+	case "prefixed-collision":
+		c := g.newFile(false)
+		collide = g.addInc(site, c, nil)
+	}
+	g.fill(false)
+	if collide != nil {
+		t.Files[site].Tasks = append(t.Files[site].Tasks, &Task{Name: collide.NS + ":build"})
+	}
+	t.Kind = fmt.Sprintf("%s@optional-%d", fault, depth)
+	t.Fault = fault
+	t.BelowOpt = depth
+	t.Render()
+	return t
 }
